@@ -1,7 +1,7 @@
 (* Entry point of the correspondence files written by harness/cmd/decode:
    one constructor per real Go function driven by the harness.
    Executable definitions only. *)
-From Verif Require Import Lib.Base Decode.GoSlice Decode.Node Decode.ProofEntries Decode.Quote Decode.KeyFormat Decode.Misc Decode.Cbor Gen.DecodeConsts.
+From Verif Require Import Lib.Base Decode.GoSlice Decode.Node Decode.ProofEntries Decode.Quote Decode.KeyFormat Decode.Misc Decode.Cbor Decode.More Decode.StreamDepth Decode.CborValue Gen.DecodeConsts.
 
 Inductive cin : Type :=
 | CDepth (b : bytes)                      (* Depth.UnmarshalBinary *)
@@ -19,7 +19,19 @@ Inductive cin : Type :=
 | CFixed (size kind : N) (b : bytes)      (* X.UnmarshalBinary of a fixed-size helper *)
 | CIasQuote (b : bytes)                   (* ias.Quote.UnmarshalBinary *)
 | CChunk (digest_ok : bool) (evs : list dec_event)    (* checkpoint restoreChunk via Restorer.RestoreChunk *)
-| CCbor (b : bytes).                      (* DecMode.Valid with the options of cbor.go:40-48; cbor.Unmarshal(b, &any) *)
+| CCbor (b : bytes)                       (* DecMode.Valid with the options of cbor.go:40-48; cbor.Unmarshal(b, &any) *)
+| CHex (size kind : N) (text : bytes)     (* X.UnmarshalHex *)
+| CText (mode size kind : N) (b64 : option bytes) (text : bytes)   (* X.UnmarshalText: mode 0 base64, 1 hex then base64; b64 = observed base64 outcome *)
+| CEncIdHex (text : bytes)                (* sgx.EnclaveIdentity.UnmarshalHex *)
+| CEncIdB64 (b64 : option bytes)          (* sgx.EnclaveIdentity.UnmarshalText *)
+| CAkid (b : bytes)                       (* aesm.AttestationKeyID.UnmarshalBinary *)
+| CQeMasks (rmisc rflags rxfrm : N) (ms msm att attm : bytes)   (* pcs.QEIdentity.verify: the mask fields against a report *)
+| CQuantity (b : bytes)                   (* quantity.Quantity.UnmarshalBinary *)
+| CPbNode (b : bytes)                     (* pathbadger nodeFromDb (hook) *)
+| CFrame (stream : bytes) (dec : option N)   (* cbor.MessageReader.Read *)
+| CEnum (table : list (bytes * N)) (text : bytes)   (* an enum UnmarshalText *)
+| CSigstruct (b : bytes)                  (* sigstruct.Verify: only "length accepted" vs "length rejected" *)
+| CStreamDepth (maxstack frame base reads : N).   (* cbor.MessageCodec.Read fed one byte per read, [reads] reads, in a child process with stack limit maxstack: does it die? *)
 
 Inductive cout : Type :=
 | ODepth (r : res (N * N))
@@ -35,7 +47,13 @@ Inductive cout : Type :=
 | OFixed (r : res bytes)
 | OIas (r : res (ias_body_t * report))
 | OChunk (r : res unit)
-| OCbor (cls : N) (unmarshal_accepts : bool).
+| OCbor (cls : N) (unmarshal_accepts : option bool)
+| OPair (r : res (bytes * bytes))
+| OAkid (r : res (N * bytes))
+| OClass (r : res unit)
+| ONum (r : res N)
+| OPb (r : res pbnode)
+| ODies (b : bool).
 
 Definition run_case (c : cin) : cout :=
   match c with
@@ -63,7 +81,26 @@ Definition run_case (c : cin) : cout :=
   | CChunk d evs =>
       OChunk (match fst (run (restore_chunk d evs)) with
               | Ok _ => Ok tt | Err e => Err e | Panic => Panic end)
-  | CCbor b => OCbor (wres_class (cbor_valid b)) false
+  | CCbor b => OCbor (wres_class (cbor_valid b))
+                     (match cbor_unmarshal_verdict b with WOk v => v | _ => Some false end)
+  | CHex size kind t => OFixed (fst (run (unmarshal_hex size kind t)))
+  | CText mode size kind b64 t =>
+      OFixed (fst (run (if mode =? 0 then unmarshal_b64 size kind b64 else unmarshal_hex_or_b64 size kind b64 t)))
+  | CEncIdHex t => OPair (fst (run (enclave_identity (hex_decode t))))
+  | CEncIdB64 b64 => OPair (fst (run (enclave_identity (match b64 with Some b => Ok b | None => Err E_B64 end))))
+  | CAkid b => OAkid (fst (run (akid b)))
+  | CQeMasks rm rf rx ms msm att attm =>
+      OClass (match fst (run (qe_masks rm rf rx ms msm att attm)) with
+              | Ok _ => Ok tt | Err e => Err (if e =? E_MISMATCH then 2 else 1) | Panic => Panic end)
+  | CQuantity b => ONum (fst (run (quantity_unmarshal_binary b)))
+  | CPbNode b => OPb (fst (run (pb_node b)))
+  | CFrame st dec => ONum (fst (run (frame_read st dec)))
+  | CEnum table t => ONum (enum_text table t)
+  | CSigstruct b =>
+      OClass (match fst (run (sigstruct_reads sigstruct_offs b)) with Ok _ => Ok tt | Err e => Err 1 | Panic => Panic end)
+  (* the 4-byte length prefix is read by io.ReadAtLeast, every later read is one Decode activation *)
+  | CStreamDepth maxstack frame base reads =>
+      ODies (overflows maxstack frame base (trickle_frames (reads - 4)))
   end.
 
 Definition pair_eqb {A B} (ea : A -> A -> bool) (eb : B -> B -> bool) (x y : A * B) : bool :=
@@ -85,8 +122,20 @@ Definition cout_eqb (a b : cout) : bool :=
   | OFixed x, OFixed y => res_eqb bytes_eqb x y
   | OIas x, OIas y => res_eqb (pair_eqb ias_body_eqb report_eqb) x y
   | OChunk x, OChunk y => res_eqb (fun _ _ => true) x y
-  (* a = model, b = implementation: same validity class, and whatever cbor.Unmarshal accepts
-     the recogniser accepts (the recogniser is a necessary condition) *)
-  | OCbor x _, OCbor y acc => (x =? y) && implb acc (x =? 0)
+  (* a = model, b = implementation: same class of the validity pass, and the SAME accept/reject
+     verdict of cbor.Unmarshal(data, &any) whenever the model's verdict is determined (None =
+     a map with a float key: undetermined) *)
+  | OCbor x mx, OCbor y acc =>
+      (x =? y) && match mx, acc with
+                  | Some v, Some a => Bool.eqb v a
+                  | None, _ => true
+                  | _, None => false
+                  end
+  | OPair x, OPair y => res_eqb (pair_eqb bytes_eqb bytes_eqb) x y
+  | OAkid x, OAkid y => res_eqb (pair_eqb N.eqb bytes_eqb) x y
+  | OClass x, OClass y => res_eqb (fun _ _ => true) x y && match x, y with Err a, Err b => a =? b | _, _ => true end
+  | ONum x, ONum y => res_eqb N.eqb x y
+  | OPb x, OPb y => res_eqb pbnode_eqb x y
+  | ODies x, ODies y => Bool.eqb x y
   | _, _ => false
   end.
